@@ -1,5 +1,7 @@
 import Poulpy.Driver.Util
 import Poulpy.Model.Fft64
+import Poulpy.Model.Fft64Avx
+import Poulpy.Model.Fft64Cnv
 
 /-!
 Model driver for `fft64` — twin of `pvh fft64` (harness/src/cmd_fft64.rs).
@@ -15,13 +17,20 @@ The twiddle tables are request fields (`omg=`, `iomg=`: the `2m` patterns the ha
   mul a= b= | addmul r= a= b=  `reim_mul_ref` / `reim_addmul_ref`      → patterns
   pipe k= omg= iomg= a= b=   svp_prepare(a); svp_apply_dft(b); idft  → integers
   vmp k= omg= iomg= a=v;v;… b=v;v;…  rows of vmp_prepare / vmp_apply_dft, one column; idft → integers
+  ffma a= b= c=              `fl(a·b + c)` (one rounding)               → patterns
+  `be=avx` on from|to|fft|ifft|mul|addmul|pipe|vmp selects the model of FFT64Avx (`Model/Fft64Avx.lean`); `mul`/`addmul`
+  take `k=` there (reference fallback for `m % 4 ≠ 0`); `vmp2 [be=avx] k= … a= b= b2= [off=1]`: matrix with two output
+  limbs (2-column kernels) → `limb0|limb1`, or with `off=1` (`vmp_apply_dft_to_dft`, `limb_offset = 1`) the second only
+  cnv [be=] k= rs= off= sl= sr= ml= mr= a=l;l;… b=l;l;…   cnv_prepare_left/right (prepared sizes sl/sr, masks ml/mr), cnv_apply_dft,
+                             idft of every limb (one column) → `limb;limb;…`;  cnvp: the same with a0= a1= b0= b1= through
+                             cnv_pairwise_apply_dft(i=0, j=1);  cnvc [be=] k= rs= off= a=l;l;… c=<i64,…>: cnv_by_const_apply
   idx k= dir=f|i             for every block in network order `lvl:blk:ire:iim:imode:jnum:jlog` (what the
                              numerical twiddle check of the gate reads: positions from `fwdIdx`/`invIdx`,
                              intended angle `j = jnum / 2^jlog` from `jpar`)
 -/
 
 namespace Drv.Fft64
-open _root_.Fft64 _root_.F64
+open _root_.Fft64 _root_.F64 _root_.Fft64Avx _root_.Fft64Cnv
 
 def showOut : Outcome (List Nat) → String
   | .ok v => if v.all isFinite then showNats v else "err:nonfinite"
@@ -44,10 +53,93 @@ def idxDump (K : Nat) (inverse : Bool) : String :=
     s!"{lvl}:{blk}:{p.1}:{p.2.1}:{if p.2.2 then 1 else 0}:{j.1}:{j.2}"))
   if rows.isEmpty then "-" else ",".intercalate rows
 
+def showI : Outcome (List Int) → String
+  | .ok v => showInts v
+  | .err k => "err:" ++ k
+  | .panic c => "panic:" ++ c
+
+def handleAvx (op : String) (args : List String) : String :=
+  let K := kvNat args "k"
+  let a := kvNats args "a"
+  let b := kvNats args "b"
+  let x := kvNats args "x"
+  let omg := (kvNats args "omg").toArray
+  let iomg := (kvNats args "iomg").toArray
+  match op with
+  | "from" => match fromZnxAvx (kvInts args "x") with
+    | .ok v => showNats v
+    | .panic c => "panic:" ++ c
+    | .err e => "err:" ++ e
+  | "to" => showInts (toZnxAvx K x)
+  | "fft" => showOut (fftAvx K omg x)
+  | "ifft" => showOut (ifftAvx K omg x)
+  | "mul" =>
+    if a.length ≠ b.length ∨ a.length ≠ 2 * 2 ^ K then "panic:assert"
+    else finiteOr (flat (List.zipWith (cmulAvx K) (halves K a) (halves K b)))
+  | "addmul" =>
+    let r := kvNats args "r"
+    if a.length ≠ b.length ∨ a.length ≠ r.length ∨ a.length ≠ 2 * 2 ^ K then "panic:assert"
+    else finiteOr (flat (List.zipWith (fun s uv => caddmulAvx K s uv.1 uv.2) (halves K r) ((halves K a).zip (halves K b))))
+  | "pipe" =>
+    let p := kvInts args "a"
+    let v := kvInts args "b"
+    if omg.size ≠ tabAlloc K ∨ iomg.size ≠ tabAlloc K then "err:table"
+    else if p.length ≠ 2 * 2 ^ K ∨ v.length ≠ 2 * 2 ^ K then "err:shape"
+    else showI (svpPipelineAvx K omg iomg p v)
+  | "vmp" | "vmp2" =>
+    let as := vecs args "a"
+    let bs := vecs args "b"
+    let b2 := vecs args "b2"
+    if omg.size ≠ tabAlloc K ∨ iomg.size ≠ tabAlloc K then "err:table"
+    else if as.length ≠ bs.length ∨ (as ++ bs ++ b2).any (fun v => v.length ≠ 2 * 2 ^ K) then "err:shape"
+    else if op == "vmp" then showI (vmpPipelineAvx K omg iomg 1 (as.zip bs))
+    else if as.length ≠ b2.length then "err:shape"
+    else
+      let l1 := vmpPipelineAvx K omg iomg 2 (as.zip b2)
+      if kv args "off" == some "1" then showI l1
+      else match vmpPipelineAvx K omg iomg 2 (as.zip bs), l1 with
+        | .ok u, .ok v => showInts u ++ "|" ++ showInts v
+        | .panic c, _ => "panic:" ++ c
+        | _, .panic c => "panic:" ++ c
+        | _, _ => "err:internal"
+  | _ => "bad-op"
+
+def showLimbs : Outcome (List (List Int)) → String
+  | .ok v => if v.isEmpty then "-" else ";".intercalate (v.map showInts)
+  | .err k => "err:" ++ k
+  | .panic c => "panic:" ++ c
+
+/-- convolution ops (both back ends): `cnv`, `cnvp` (pairwise, two columns), `cnvc` (by constants) -/
+def handleCnv (op : String) (args : List String) : String :=
+  let K := kvNat args "k"
+  let avx := kv args "be" == some "avx"
+  let o := if avx then avxOps else refOps
+  let omg := (kvNats args "omg").toArray
+  let iomg := (kvNats args "iomg").toArray
+  let rs := kvNat args "rs"
+  let off := kvNat args "off"
+  let n := 2 * 2 ^ K
+  let bad := fun (c : List (List Int)) => c.any (fun v => v.length ≠ n)
+  match op with
+  | "cnv" =>
+    let a := vecs args "a"
+    let b := vecs args "b"
+    if omg.size ≠ tabAlloc K ∨ iomg.size ≠ tabAlloc K then "err:table" else if bad a ∨ bad b then "err:shape"
+    else showLimbs (cnvPipeline o K omg iomg rs off (kvNat args "sl") (kvNat args "sr") (kvInt args "ml") (kvInt args "mr") a b)
+  | "cnvp" =>
+    let a0 := vecs args "a0"; let a1 := vecs args "a1"; let b0 := vecs args "b0"; let b1 := vecs args "b1"
+    if omg.size ≠ tabAlloc K ∨ iomg.size ≠ tabAlloc K then "err:table" else if bad a0 ∨ bad a1 ∨ bad b0 ∨ bad b1 then "err:shape"
+    else showLimbs (cnvPairwise o K omg iomg rs off (kvNat args "sl") (kvNat args "sr") (kvInt args "ml") (kvInt args "mr") a0 a1 b0 b1)
+  | _ =>
+    let a := vecs args "a"
+    if bad a then "err:shape" else showLimbs (cnvByConst avx K rs off a (kvInts args "c"))
+
 def handle (ts : List String) : String :=
   match ts with
   | [] => "bad-op"
   | op :: args =>
+    if op == "cnv" || op == "cnvp" || op == "cnvc" then handleCnv op args else
+    if kv args "be" == some "avx" then handleAvx op args else
     let K := kvNat args "k"
     let a := kvNats args "a"
     let b := kvNats args "b"
@@ -57,6 +149,23 @@ def handle (ts : List String) : String :=
     | "fsub" => showNats (List.zipWith sub a b)
     | "fmul" => showNats (List.zipWith mul a b)
     | "fneg" => showNats (a.map neg)
+    | "ffma" => showNats ((List.zipWith (fun p c => F64.fma p.1 p.2 c) (a.zip b) (kvNats args "c")))
+    | "vmp2" =>
+      let omg := (kvNats args "omg").toArray
+      let iomg := (kvNats args "iomg").toArray
+      let as := vecs args "a"
+      let bs := vecs args "b"
+      let b2 := vecs args "b2"
+      if omg.size ≠ tabAlloc K ∨ iomg.size ≠ tabAlloc K then "err:table"
+      else if as.length ≠ bs.length ∨ as.length ≠ b2.length ∨ (as ++ bs ++ b2).any (fun v => v.length ≠ 2 * 2 ^ K) then "err:shape"
+      else
+        let l1 := vmpApply K omg iomg (as.zip b2)
+        if kv args "off" == some "1" then showI l1
+        else match vmpApply K omg iomg (as.zip bs), l1 with
+          | .ok u, .ok v => showInts u ++ "|" ++ showInts v
+          | .panic c, _ => "panic:" ++ c
+          | _, .panic c => "panic:" ++ c
+          | _, _ => "err:internal"
     | "from" => showNats (fromZnx (kvInts args "x"))
     | "to" => showInts (toZnx K x)
     | "fft" => showOut (fftRef K (kvNats args "omg").toArray x)
